@@ -9,6 +9,11 @@ def cmd(pid, tier):
 
 # id -> (category, engine, technique, level text, level note, design ref)
 CHECKS = {
+ "C11": ("model_checking", "SCHED",
+   "stateless DFS over all orders of connection opens/closes/aborts (each a scheduling point) on in-memory HTTP and WebSocket connections sharing one ConnectionGuard; interval-rule monitor against a reference occupancy counter",
+   "Limits 0..2 (thorough 3), limit+1..limit+3 connections: HTTP requests being processed (parked handler), keep-alive follow-ups, WebSocket sessions ended by close frame / reset mid-call / with open subscription / protocol violation by a hand-written peer that keeps its socket open / upgrade whose response is never read / HTTP request aborted mid-call / server stop. Certain occupancy never exceeds the limit and agrees with ConnectionGuard::available_connections() seen inside running calls; every 429 must be justified by a possibly full server during the attempt; every ended WebSocket connection must have its session finished by quiescence; no handler runs for a refused request.",
+   "TowerService assembly over in-memory duplexes (not Server::start's accept loop); preemption only at points.",
+   "DESIGN.md §6 C11"),
  "C10": ("model_checking", "SCHED",
    "stateless DFS over all release orders of peer actions, parked call handlers, stop()/handle drop and the library's cfg points on real in-memory WebSocket and HTTP/1.1 connections; trace monitor with a transport write log",
    "0-3 connections (WebSocket and keep-alive HTTP) with calls whose handler parks at scheduling points, optional subscription, second stop(), dropping all handles, peer close/drop racing the stop; stop() is a scheduling point of its own and so lands at every position of the history. On every execution: each started call whose peer stayed is answered and its handler ran to completion, nothing is written to a transport and no handler starts after stopped() resolved, stopped() resolves and every serve future ends.",
